@@ -10,12 +10,12 @@ use proptest::prelude::*;
 
 pub struct P;
 
-struct Counts {
-    plain_rotated: usize,
-    gz_rotated: usize,
+pub struct Counts {
+    pub plain_rotated: usize,
+    pub gz_rotated: usize,
 }
 
-fn counts(cfg: &FileCfg, fam: &[FamFile]) -> Counts {
+pub fn counts(cfg: &FileCfg, fam: &[FamFile]) -> Counts {
     let direct = cfg.nam().is_some_and(|n| !n.rename_style());
     let n = fam.len();
     let mut c = Counts { plain_rotated: 0, gz_rotated: 0 };
